@@ -66,13 +66,13 @@ def sfs(g, sampled, times, prog, via='Demes.SFS', **kw):
 
 @st.composite
 def native_case(draw):
-    big = draw(st.integers(0, 7)) == 0
+    big = draw(st.integers(0, 4)) == 0
     prog = draw(P.program(max_pops=5 if big else 4))
     units = draw(st.sampled_from(['generations', 'generations', 'years']))
     return dict(prog=prog, units=units, gt=draw(st.sampled_from([25.0, 0.37, 1.0])), via=draw(st.sampled_from(['Demes.SFS', 'Demes.SFS', 'from_demes'])))
 
 
-@REG.relation('R1-graph-equals-native', strategy=native_case, quick=(160, 16), thorough=(4000, 16))
+@REG.relation('R1-graph-equals-native', strategy=native_case, quick=(400, 16), thorough=(6000, 16))
 def r1(case, rec):
     """The spectrum computed from the graph equals the spectrum of the hand-written dadi program (ancient samples = frozen
     populations), whether the graph is in generations or years."""
@@ -91,13 +91,13 @@ def r1(case, rec):
 
 @st.composite
 def meta_case(draw):
-    big = draw(st.integers(0, 9)) == 0
+    big = draw(st.integers(0, 5)) == 0
     prog = draw(P.program(max_pops=5 if big else 4))
     return dict(prog=prog, c=math.exp(draw(st.floats(math.log(0.05), math.log(20.0)))), gt=draw(st.sampled_from([25.0, 0.37, 29.0])),
                 perm_seed=draw(st.integers(0, 10 ** 6)), give_Ne=draw(st.booleans()))
 
 
-@REG.relation('R2-units-scale-order', strategy=meta_case, quick=(120, 16), thorough=(3000, 16))
+@REG.relation('R2-units-scale-order', strategy=meta_case, quick=(240, 16), thorough=(4000, 16))
 def r2(case, rec):
     """The graph's spectrum is unchanged in other time units, relative to another reference size (sizes and times x c, rates / c),
     and sampled demes listed in another order only permute the axes."""
@@ -129,33 +129,61 @@ def r2(case, rec):
 
 @st.composite
 def export_case(draw):
-    big = draw(st.integers(0, 9)) == 0
+    big = draw(st.integers(0, 5)) == 0
     prog = draw(P.program(max_pops=5 if big else 4, allow_ancient=False))
-    return dict(prog=prog, gt=draw(st.sampled_from([None, None, 25.0, 0.5])))
+    return dict(prog=prog, gt=draw(st.sampled_from([None, None, 25.0, 0.5])), named=draw(st.booleans()))
 
 
-@REG.relation('R3-export-reimport', strategy=export_case, quick=(160, 16), thorough=(4000, 16))
+def _export_roundtrip(prog, gt, named):
+    with dadi_call('native program'):
+        fs_n, names, frozen = P.run_native(prog, True, named=named)
+    reordered = any(isinstance(e, dadi.Demes.Reorder) for e in dadi.Demes.cache)
+    with dadi_call('Demes.output', stage='output'):
+        g = dadi.Demes.output(Nref=prog['N0'], generation_time=gt)
+        ids = list(dadi.Demes.cache[-1].deme_ids)
+    require(len(ids) == len(names), 'exported history ends with %d demes, the program with %d' % (len(ids), len(names)))
+    if named:
+        require(ids == list(names), 'exported history ends with demes %r, the program named them %r' % (ids, names))
+    with dadi_call('spectrum of the exported graph', stage='reimport'):
+        fs_d = dadi.Demes.SFS(g, ids, [prog['ns']] * len(ids), prog['pts'], theta=prog['theta'])
+    m = ~np.ma.getmaskarray(fs_n)
+    a, b = data(fs_d)[m], data(fs_n)[m]
+    return a, b, reordered
+
+
+@REG.relation('R3-export-reimport', strategy=export_case, quick=(400, 16), thorough=(6000, 16))
 def r3(case, rec):
     """Running a native program, exporting the recorded history with Demes.output(Nref[, generation_time]) and computing the
-    spectrum of the exported graph reproduces the program's spectrum."""
+    spectrum of the exported graph reproduces the program's spectrum (default deme names, or names passed as deme_ids)."""
+    from harness import drivers as D
     prog = case['prog']
     f, lab, nt = feats(prog)
     for s in prog['steps']:
         for a, b, kind in s['integrate']['sizes']:
             if kind == 'exponential' and abs(math.log(b / a)) < 0.05:
                 raise Reject('nearly constant exponential change')
-    rec.case(case, nt, lab + ['gt' if case['gt'] else 'generations'])
-    with dadi_call('native program'):
-        fs_n, names, frozen = P.run_native(prog, True)
-    with dadi_call('Demes.output', stage='output'):
-        g = dadi.Demes.output(Nref=prog['N0'], generation_time=case['gt'])
-        ids = list(dadi.Demes.cache[-1].deme_ids)
-    require(len(ids) == len(names), 'exported history ends with %d demes, the program with %d' % (len(ids), len(names)))
-    with dadi_call('spectrum of the exported graph', stage='reimport'):
-        fs_d = dadi.Demes.SFS(g, ids, [prog['ns']] * len(ids), prog['pts'], theta=prog['theta'])
-    m = ~np.ma.getmaskarray(fs_n)
-    require_close(data(fs_d)[m], data(fs_n)[m], 1e-6, 'spectrum of the exported graph vs the program that was exported [%s]' % ' '.join(lab),
-                  rec, key='export', pops=f['max_pops'])
+    a, b, reordered = _export_roundtrip(prog, case['gt'], case['named'])
+    rec.case(case, nt, lab + ['gt' if case['gt'] else 'generations', 'named' if case['named'] else 'default-names', 'reordered' if reordered else 'aligned'])
+    what = 'spectrum of the exported graph vs the program that was exported [%s%s]' % (' '.join(lab), ' named' if case['named'] else '')
+    if not reordered:
+        require_close(a, b, 1e-6, what, rec, key='export', pops=f['max_pops'])
+        return
+    # The program reordered its axes, so the exported graph lists its demes in another order than the program's axes and the two
+    # computations take their directional sub-steps in a different order: they agree only up to an operator-splitting error that
+    # shrinks with the time step. An export error (a wrong size, time, ancestor or proportion) does not shrink.
+    d0 = np.abs(a - b).max() / np.abs(b).max()
+    rec.err('export (reordered axes, default step)', d0)
+    if d0 <= 1e-9:
+        return
+    require(d0 <= 2e-3, what + ': differ by %.3e' % d0)
+    if f['max_pops'] >= 5:
+        return
+    with D.timescale(factor=6.25e-5):
+        a2, b2, _ = _export_roundtrip(prog, case['gt'], case['named'])
+    d1 = np.abs(a2 - b2).max() / np.abs(b2).max()
+    rec.err('export (reordered axes, step/16)', d1)
+    require(d1 <= 0.5 * d0 or d1 <= 1e-7, what + ': differ by %.3e at the default time step and %.3e at a 16 times smaller one (does not vanish with '
+            'the step, so it is not an operator-splitting difference)' % (d0, d1))
 
 
 @st.composite
@@ -173,7 +201,7 @@ def slice_case(draw):
     return dict(prog=prog, t=t, where=where, units=draw(st.sampled_from(['generations', 'years'])))
 
 
-@REG.relation('R4-slice-and-ancient', strategy=slice_case, quick=(160, 16), thorough=(4000, 16))
+@REG.relation('R4-slice-and-ancient', strategy=slice_case, quick=(400, 16), thorough=(6000, 16))
 def r4(case, rec):
     """Sampling every deme t ago (all samples ancient), and the graph sliced at t, both equal the native program stopped t before
     its end - including cuts inside exponential and linear epochs and older ancient samples."""
@@ -223,7 +251,7 @@ def swipe_case(draw):
     return dict(prog=prog, frac=draw(st.floats(0.02, 0.98)), pre=pre, tot=tot, boundary=draw(st.integers(0, 3)) == 0)
 
 
-@REG.relation('R5-swipe', strategy=swipe_case, quick=(160, 16), thorough=(4000, 16))
+@REG.relation('R5-swipe', strategy=swipe_case, quick=(400, 16), thorough=(6000, 16))
 def r5(case, rec):
     """DemesUtil.swipe(g, t) leaves every deme's sizes, migrations and pulses more recent than t untouched and gives demes that
     span t their size at t for all earlier time; when one deme exists at t the swiped graph's spectrum equals the native program
